@@ -15,6 +15,7 @@ Not decided (numerical): finiteness, monotonicity, lower bound, 0.5 % agreement 
   R10.5  rows:  dl + d + du = -1 on interior rows and on row 0,  the three coefficient slices are aligned
          (dl[0:n-2], d[1:n-1], du[1:n-1]),  capacity term = rho_cp * vol / dt of the centre cell,
          right-hand side -T_old (minus q / ad in row 0),  last row Dirichlet
+  R10.8  publication: lntts / g / g_bhw are the computed curves resampled on one uniform grid, g_sts interpolates them
   R10.6  outputs:  g = 2 pi k_s ((T_0 - T_init) / q - Rb*),  g_bhw = 2 pi k_s (T_wall - T_init) / q with
          T_wall the cell at bh_wall_idx,  lntts = ln(t / t_s),  t_s = H^2 / (9 alpha)
 """
@@ -457,6 +458,48 @@ def _stencil(prog: Program, res: Result, env0):
         res.ob("R10.6", "lntts = ln(t / t_s)", ok, prog.loc(fi, apps["lntts"].node))
         if not ok:
             res.violation("R10.6", f"lntts|{got.key()[:80]}", prog.loc(fi, apps["lntts"].node), q, f"lntts is {got.key()[:120]} instead of ln(time / t_s)")
+    # ---- R10.8 what is published: the three curves resampled on ONE uniform ln(t/ts) grid, g_sts from them
+    fin_env = f.env
+    pub = {}
+    for s_ in fi.node.body:
+        if isinstance(s_, ast.Assign) and len(s_.targets) == 1 and attr_chain(s_.targets[0]) in ("self.lntts", "self.g", "self.g_bhw", "self.g_sts"):
+            pub[attr_chain(s_.targets[0])] = s_
+    defs = {s_.targets[0].id: s_.value for s_ in fi.node.body if isinstance(s_, ast.Assign) and len(s_.targets) == 1 and isinstance(s_.targets[0], ast.Name)}
+
+    def root(node, depth=0):
+        # follow  np.array(X) / X -> name -> its definition  down to interp1d(a, b)(grid) or linspace(...)
+        if depth > 6:
+            return ast.unparse(node)
+        if isinstance(node, ast.Call) and attr_chain(node.func) in ("np.array", "numpy.array") and node.args:
+            return root(node.args[0], depth + 1)
+        if isinstance(node, ast.Name) and node.id in defs:
+            return root(defs[node.id], depth + 1)
+        if isinstance(node, ast.Call) and isinstance(node.func, ast.Name) and node.func.id in defs:
+            inner = defs[node.func.id]
+            if isinstance(inner, ast.Call) and attr_chain(inner.func) == "interp1d" and len(inner.args) >= 2:
+                return f"interp({ast.unparse(inner.args[0])}, {ast.unparse(inner.args[1])})@{root(node.args[0], depth + 1)}"
+        if isinstance(node, ast.Call) and attr_chain(node.func) in ("np.linspace", "numpy.linspace"):
+            return "linspace(" + ", ".join(ast.unparse(a) for a in node.args) + ")"
+        return ast.unparse(node)
+
+    if set(pub) != {"self.lntts", "self.g", "self.g_bhw", "self.g_sts"}:
+        raise AnalysisError(f"{q}: published curves (self.lntts, self.g, self.g_bhw, self.g_sts) not found")
+    grid = root(pub["self.lntts"].value)
+    okg = grid.startswith("linspace(lntts[0], lntts[-1], ")
+    res.ob("R10.8", f"published abscissae: uniform grid from the first to the last computed ln(t/ts) ({grid})", okg, prog.loc(fi, pub["self.lntts"]))
+    if not okg:
+        res.violation("R10.8", f"grid|{grid[:60]}", prog.loc(fi, pub["self.lntts"]), q, f"the published ln(t/ts) grid is {grid[:100]} instead of linspace(lntts[0], lntts[-1], n)")
+    for attr, src in (("self.g", "g"), ("self.g_bhw", "g_bhw")):
+        r_ = root(pub[attr].value)
+        ok = r_ == f"interp(lntts, {src})@{grid}"
+        res.ob("R10.8", f"published {attr[5:]}: the computed {src} interpolated over (lntts, {src}) at the published grid", ok, prog.loc(fi, pub[attr]))
+        if not ok:
+            res.violation("R10.8", f"publish|{attr}|{r_[:60]}", prog.loc(fi, pub[attr]), q, f"{attr} is {r_[:120]} instead of the computed {src} resampled on the published grid")
+    v = pub["self.g_sts"].value
+    ok = isinstance(v, ast.Call) and attr_chain(v.func) == "interp1d" and [ast.unparse(a) for a in v.args[:2]] == ["self.lntts", "self.g"]
+    res.ob("R10.8", "g_sts interpolates the published (lntts, g)", ok, prog.loc(fi, pub["self.g_sts"]))
+    if not ok:
+        res.violation("R10.8", "g_sts-source", prog.loc(fi, pub["self.g_sts"]), q, f"g_sts is {ast.unparse(v)[:80]} instead of interp1d(self.lntts, self.g)")
     # resistances handed to the cell filler
     fill = [e for e in f.events if e.kind == "FILL"]
     if len(fill) != 1 or len(fill[0].data) != 2:
@@ -509,6 +552,7 @@ VARIANTS = [
     Variant("cell volume uses the diameter", "break", [(RN, "            volume = pi * (outer_radius**2 - inner_radius**2)", "            volume = pi * (outer_radius**2 - inner_radius**2) * 4.0")], "R10.7"),
     Variant("sub-diagonal stored one row late", "break", [(RN, "        _dl[0 : self.num_cells - 2] = -_aw / _ad", "        _dl[1 : self.num_cells - 1] = -_aw / _ad")], "R10.5"),
     Variant("t_s uses 4 alpha instead of 9 alpha", "break", [(RN, "        self.t_s = single_u_tube.b.H**2 / (9 * soil_diffusivity)\n        self.calc_time_in_sec = max([self.t_s * exp(-8.6), 49.0 * SEC_IN_HR])\n\n    def fill_radial_cells", "        self.t_s = single_u_tube.b.H**2 / (4 * soil_diffusivity)\n        self.calc_time_in_sec = max([self.t_s * exp(-8.6), 49.0 * SEC_IN_HR])\n\n    def fill_radial_cells")], "R10.6"),
+    Variant("wall curve published from the fluid curve", "break", [(RN, "        g_bhw_tmp = interp1d(lntts, g_bhw)", "        g_bhw_tmp = interp1d(lntts, g)")], "R10.8"),
     Variant("loop variable renamed in the soil region", "benign",
             [(RN, "        for j, idx in enumerate(range(cell_summation, self.num_soil_cells + cell_summation)):\n            inner_radius_soil_cell = self.r_borehole + j * self.thickness_soil_cell\n            radial_cells[:, idx] = fill_single_cell(",
               "        for m, col in enumerate(range(cell_summation, self.num_soil_cells + cell_summation)):\n            inner_radius_soil_cell = self.r_borehole + self.thickness_soil_cell * m\n            radial_cells[:, col] = fill_single_cell(")]),
